@@ -29,6 +29,9 @@ EXHAUSTIVE = {
     "quick": "all explore sequences over sub-segment alphabet {(0,),(7,),(f,)} (every subset) to depth 3",
     "thorough": "all explore sequences over sub-segment alphabet {(0,),(7,),(f,)} (every subset) to depth 4",
 }
+# thorough tier: the repository's own tests replayed under these run-time contracts
+REPO_TESTS = {"files": ["tests/core/test_fog.py", "tests/core/test_hexary_trie_walk.py"],
+              "contracts": ["fog_antichain", "fog_explore", "fog_mark_all_complete"]}
 FLOORS = {
     "quick": {"steps": 20000, "queries": 100000, "commute_checks": 2000, "rejections": 3000,
               "kind_ext": 1000, "kind_branch": 1000, "kind_mixed": 1000, "kind_leaf": 1000, "kind_mark": 500,
